@@ -209,28 +209,34 @@ theorem mstep_plOnly {d : Db} (hM : MemInv d) (hP : PlInv d) {op : Op} (h : isPl
 
 /-! ### remove_crate -/
 
-theorem mstep_removeCrate {S : Ord} {d : Db} (hM : MemInv d) (hC : ChInv S d) (c : Int) :
+theorem mstep_removeCrate {S : Ord} {d : Db} (hM : MemInv d) (hP : PlInv d) (hC : ChInv S d) (c : Int) :
     MStep d (.removeCrate c) := by
   by_cases he : plExists d c = true
-  · have hstep : step d (.removeCrate c) = (plRemove d c, .ok none) := by simp [step, he]
+  · obtain ⟨ds, hds, hmem⟩ := descendantIds_ok hP.wf c
+    have hG : IsGone d c (c :: ds) := isGone_cons hmem
+    have hstep : step d (.removeCrate c) = (plRemove d (c :: ds), .ok none) := by simp [step, he, hds]
     have hn := hC.rk.ids_nodup
-    have hcl := gone_closed hn hC.rk.id_pos (plExists_iff.mp he)
-    have hpl : cores (plRemove d c).pl = (cores d.pl).filter (fun k => !(c :: descendantIds d.pl c).contains k.1) :=
-      cores_foldl_deleteCascade _ _ hcl
-    have hpe : cores (plRemove d c).pe = (cores d.pe).filter (fun k => !(c :: descendantIds d.pl c).contains k.2.1) :=
-      cores_foldl_clearKey hC.re.ids_nodup _
-    have hids : ids (plRemove d c).pl = (ids d.pl).filter (fun x => !(c :: descendantIds d.pl c).contains x) := by
+    have hpl : cores (plRemove d (c :: ds)).pl = (cores d.pl).filter (fun k => !(c :: descSet d c).contains k.1) :=
+      cores_plRemove_pl hn hC.rk.id_pos (plExists_iff.mp he) hG
+    have hpe : cores (plRemove d (c :: ds)).pe = (cores d.pe).filter (fun k => !(c :: descSet d c).contains k.2.1) := by
+      have : cores (plRemove d (c :: ds)).pe = (cores d.pe).filter (fun k => !(c :: ds).contains k.2.1) :=
+        cores_foldl_clearKey hC.re.ids_nodup _
+      rw [this]
+      apply List.filter_congr
+      intro k _
+      rw [hG.contains]
+    have hids : ids (plRemove d (c :: ds)).pl = (ids d.pl).filter (fun x => !(c :: descSet d c).contains x) := by
       rw [ids_eq_cores, hpl, ids_eq_cores, List.filter_map]
       rfl
-    have htr : (plRemove d c).tracks = d.tracks := rfl
+    have htr : (plRemove d (c :: ds)).tracks = d.tracks := rfl
     have hlive : (absF d).live c = true := by rw [← plExists_eq_live]; exact he
     refine ⟨?_, ?_, fun _ ho => by rw [hstep]; exact own_of_filter hpe ho⟩
     · rw [hstep]
       simp only [judgeM, outcome, membersOps, hlive, beq_self_eq_true, Bool.and_self, if_true, List.foldlM_cons,
-        List.foldlM_nil, judgeM1, Members.step, Members.Verdict.next, ← descendantIds_eq]
+        List.foldlM_nil, judgeM1, Members.step, Members.Verdict.next]
       simp only [absM, hids, hpe, htr]
-      rw [pairs_filter (cores d.pe) (fun k => !(c :: descendantIds d.pl c).contains k.2.1)
-        (fun p => !(c :: descendantIds d.pl c).contains p.1) (fun _ _ _ => rfl)]
+      rw [pairs_filter (cores d.pe) (fun k => !(c :: descSet d c).contains k.2.1)
+        (fun p => !(c :: descSet d c).contains p.1) (fun _ _ _ => rfl)]
       rfl
     · rw [hstep]
       refine ⟨?_, hM.tracks_nodup, hM.tracks_seq, hM.trSeq0⟩
@@ -496,7 +502,7 @@ theorem mstep {S : Ord} {d : Db} (hM : MemInv d) (hP : PlInv d) (hC : ChInv S d)
   | createSubAfter p n a => exact mstep_plOnly hM hP rfl
   | rename c n => exact mstep_plOnly hM hP rfl
   | setParent c p => exact mstep_plOnly hM hP rfl
-  | removeCrate c => exact mstep_removeCrate hM hC c
+  | removeCrate c => exact mstep_removeCrate hM hP hC c
   | createTrack => exact mstep_createTrack hM
   | removeTrack t => exact mstep_removeTrack hM hC t
   | addTrack c t => exact mstep_addTrack hM c t
@@ -527,7 +533,7 @@ theorem okOp_of_apiOp {op : Op} (h : apiOp op = true) : okOp op = true := okOp_o
 
 theorem inv_step {S : Ord} {d : Db} (hI : Inv S d) (op : Op) (hm : memOp op = true) :
     Inv (ordStep S d op) (step d op).1 :=
-  ⟨chInv_step hI.ch op (okOp_of_memOp hm), plInv_step hI.pl op, (mstep hI.mem hI.pl hI.ch op hm).inv⟩
+  ⟨chInv_step hI.ch hI.pl op (okOp_of_memOp hm), plInv_step hI.pl op, (mstep hI.mem hI.pl hI.ch op hm).inv⟩
 
 /-- The three Spec judges (forest, memberships, ordered lists), driven by the Model's answers only, never object
 along a history, and the states they track are the abstractions of the Model state. -/
